@@ -4,6 +4,7 @@ import QP.Proofs.PTReverse
 import QP.Proofs.PTTopW
 import QP.Proofs.PTTop2W
 import QP.Proofs.PTTop3W
+import QP.Proofs.PTSingle
 import Mathlib.Tactic.Linarith
 /-!
 # C02 — measurement windows of a program are the declared windows in absolute time
@@ -44,6 +45,23 @@ theorem windows_correct_reversal_partial {pt : PT} (hs : Stage3R pt) (params : L
   cases prog? with
   | some prog => exact this.2
   | none => exact this.2
+
+/-- **windows for every `to_single_waveform` set**: collapsing sub-templates into single waveforms keeps the windows
+(C05 `collapse_invariant_partial`), so they are the denoted ones for every set `S` — all composite constructors incl.
+time reversal, outside C05's exclusion class `cleanW`, under C05's output-checkable side conditions (`nonnegW`: no
+played waveform of negative duration; `tidy c` for some channel `c`). -/
+theorem windows_correct_single_partial {pt : PT} (hs : Stage3R pt) (params : List (String × Rat))
+    (mm : Option (List (MName × Option MName))) (cm : List (Chan × Option Chan)) (S : List String)
+    (prog0 progS : Loop) (P : Pulse)
+    (h0 : createProgram pt params mm cm [] = .ok (some prog0))
+    (hnn0 : QP.C05.allLeaves QP.C05.nonnegW prog0 = true)
+    (hS : createProgram pt params mm cm S = .ok (some progS))
+    (hden : denoteTop pt params mm cm = .ok P)
+    (hclean : QP.C05.cleanW S false false pt = true)
+    (c : Chan) (ht0 : QP.C05.allLeaves (QP.C05.tidy c) prog0 = true)
+    (htS : QP.C05.allLeaves (QP.C05.tidy c) progS = true) :
+    progS.windows.Perm P.windows :=
+  (createProgram_single_W hs params mm cm S prog0 progS P h0 hnn0 hS hden hclean c ht0 htS).2
 
 /-- all windows of a pulse lie inside `[0, duration]` -/
 def Inside (P : Pulse) : Prop := ∀ w ∈ P.windows, 0 ≤ w.2.1 ∧ w.2.1 + w.2.2 ≤ P.dur
